@@ -551,6 +551,22 @@ def must_consume(ctx: Ctx, fi: FuncInfo, _depth: int = 0, after: Node | None = N
             continue
         p = flow.cfg.path_avoiding(start, r, consumers)
         if p is not None:
+            # single-exit style: `return rendered` where one arm set rendered = "" (nothing emitted, nothing to consume):
+            # only the arms that produce text have to pass a consume statement
+            v = r.ast.value
+            defs = flow.reaching(r, v.id) if isinstance(v, ast.Name) else []
+            if len(defs) > 1 and all(d.kind == "assign" for d in defs) and any(isinstance(d.value, ast.Constant) and d.value.value == "" for d in defs):
+                bad = None
+                for d in defs:
+                    if isinstance(d.value, ast.Constant) and d.value.value == "":
+                        continue
+                    p1 = flow.cfg.path_avoiding(start, d.node, consumers) if d.node is not start else [start]
+                    p2 = flow.cfg.path_avoiding(d.node, r, consumers)
+                    if p1 is not None and p2 is not None and d.node not in consumers:
+                        bad = p1 + p2[1:]
+                if bad is None:
+                    continue
+                return False, bad
             return False, p
     return True, None
 
@@ -592,6 +608,8 @@ def ends_with_newline(ctx: Ctx, fi: FuncInfo, expr: ast.AST | None, node: Node, 
             return None
         res = []
         for d in defs:
+            if d.kind == "assign" and isinstance(d.value, ast.Constant) and d.value.value == "" and len(defs) > 1:
+                continue  # one of several values, the empty one: no output at all, like `return ""`
             if d.kind == "assign":
                 res.append(ends_with_newline(ctx, fi, d.value, d.node, depth + 1))
             elif d.kind == "aug":
